@@ -695,6 +695,29 @@ pub fn f6(b: &Bounds) -> Vec<GenProg> {
             },
         });
     }
+    // two aggregate rules over the SAME body and grouping that differ only in the aggregated variable
+    // (or only in the function): identical sub-plans up to the aggregate's column
+    {
+        let bodies2: Vec<Vec<Lit>> = vec![vec![pos("e", &[X, Y]), pos("f", &[X, Z])], vec![pos("w", &[X, Y, Z])]];
+        for body in &bodies2 {
+            for ag in AGGS {
+                for (v1, v2, ag2) in [(1u8, 2u8, ag), (2, 1, ag)] {
+                    let g1 = Clause { rel: "g".into(), head: vec![HeadArg::T(X), HeadArg::A(ag, v1)], body: body.clone() };
+                    let g2 = Clause { rel: "k".into(), head: vec![HeadArg::T(X), HeadArg::A(ag2, v2)], body: body.clone() };
+                    out.push(GenProg { family: "F6", prog: Program { clauses: vec![g1.clone(), g2.clone(), q(&[X, Y], vec![pos("k", &[X, Y])])] } });
+                    if v1 == 1 {
+                        out.push(GenProg { family: "F6", prog: Program { clauses: vec![g1.clone(), g2.clone(), q(&[X, Y, Z], vec![pos("g", &[X, Y]), pos("k", &[X, Z])])] } });
+                    }
+                }
+            }
+            // same variable, different function
+            for (a1, a2) in [(Agg::Count, Agg::CountDistinct), (Agg::Min, Agg::Max), (Agg::Sum, Agg::Avg)] {
+                let g1 = Clause { rel: "g".into(), head: vec![HeadArg::T(X), HeadArg::A(a1, 1)], body: body.clone() };
+                let g2 = Clause { rel: "k".into(), head: vec![HeadArg::T(X), HeadArg::A(a2, 1)], body: body.clone() };
+                out.push(GenProg { family: "F6", prog: Program { clauses: vec![g1, g2, q(&[X, Y], vec![pos("k", &[X, Y])])] } });
+            }
+        }
+    }
     // union head whose branches are aggregate clauses (same / different aggregate, one plain branch), queried
     // directly and through a reader rule
     for (a1, a2) in [(Agg::Sum, Agg::Sum), (Agg::Count, Agg::Count), (Agg::Min, Agg::Max), (Agg::Count, Agg::Sum)] {
@@ -875,8 +898,11 @@ pub fn edbs_for(p: &Program, b: &Bounds, budget: usize) -> Vec<Db> {
         let mut lists: Vec<(String, Vec<Rel>)> = vec![];
         let mut total: usize = 1;
         for (i, (name, ar)) in names.iter().enumerate() {
-            let uni = universe(dom, **ar);
+            // ternary relations: a reduced universe (5 tuples sharing their first column, so that groups have
+            // several members with different 2nd / 3rd columns) keeps the subset count small
+            let uni = if **ar == 3 { vec![vec![1, 1, 1], vec![1, 1, 2], vec![1, 2, 1], vec![2, 1, 1], vec![1, 2, 2]] } else { universe(dom, **ar) };
             let cap = if i == 0 { *m_primary } else { *m_secondary };
+            let cap = if **ar == 3 { cap.max(2) } else { cap };
             let subs = subsets_upto(&uni, cap.min(uni.len()));
             total = total.saturating_mul(subs.len());
             lists.push(((*name).clone(), subs));
@@ -889,8 +915,9 @@ pub fn edbs_for(p: &Program, b: &Bounds, budget: usize) -> Vec<Db> {
     let (dom, mp, ms) = options.last().unwrap();
     let mut lists = vec![];
     for (i, (name, ar)) in names.iter().enumerate() {
-        let uni = universe(dom, **ar);
+        let uni = if **ar == 3 { vec![vec![1, 1, 1], vec![1, 1, 2], vec![1, 2, 1], vec![2, 1, 1], vec![1, 2, 2]] } else { universe(dom, **ar) };
         let cap = if i == 0 { *mp } else { *ms };
+        let cap = if **ar == 3 { cap.max(2) } else { cap };
         lists.push(((*name).clone(), subsets_upto(&uni, cap.min(uni.len()))));
     }
     edb_product(&lists)
